@@ -18,6 +18,8 @@ EXPLANATION = (
     "snapshot is not mutated in the body. Decides the necessary structure; whether a system added mid-step runs now or "
     "next step is left open by the property.")
 EXPLANATION += (' The scheduler loop is left early (break / return) only on a path that established that the model is no longer running. Premise: all of C01 (priority order, queue holds each registered system once).')
+EXPLANATION += (' add_system / remove_system / clean_up write the registry and the queue and nothing else of the tabled model state; overrides of System.clean_up hand the removal on to super().clean_up on every path.')
+EXPLANATION += (' (System.model included.)')
 ASSUMPTIONS = ["G6 open-world callbacks may call any public method", "list iterator index semantics (language fact)"]
 
 
@@ -234,8 +236,7 @@ def run(cx: Cx):
             f1 = cx.prog.functions.get(q)
             if f1 is None:
                 continue
-            extra = [(w, ch) for w, ch in cx.effects.trans_writes(f1) if w.loc and w.loc not in allowed and w.loc[1] in STATE_FIELDS
-                     and not (w.loc[0] == CORE + 'System' and w.loc[1] == 'model')]
+            extra = [(w, ch) for w, ch in cx.effects.trans_writes(f1) if w.loc and w.loc not in allowed and w.loc[1] in STATE_FIELDS]
             if extra:
                 w, ch = extra[0]
                 cx.violation('R-DISC', q, 'registration-changes-the-schedule-only',
